@@ -191,7 +191,7 @@ func (p *poller) readWrite(ev *syscall.Kevent_t) {
 						*pbuf = (*pbuf)[:n]
 						p.g.onDataPtr(rc, pbuf)
 					}
-					p.g.payback(c, pbuf)
+					p.g.payback(c, pbuf, bufLen)
 					if errors.Is(err, syscall.EINTR) {
 						continue
 					}
